@@ -12,11 +12,15 @@ from props.c17_craft import *
 
 MODULES = ["JxlModel.Props.C17"]
 NOT_E2E = ("end-to-end JPEG byte-exactness (reconstructed file == original JPEG) is exercised on synthetic "
-           "transcodes only: harness/src/synth.rs writes baseline 4:4:4 three-component JPEGs (standard Huffman "
-           "tables, sequential scans in four layouts, extra zero runs, recorded padding bits, JFIF / Exif / "
-           "comment segments) with an independent textbook encoder and carries the same coefficients in a VarDCT "
-           "frame of DCT8 blocks with a jbrd box; progressive scans, subsampling, restart intervals, custom "
-           "Huffman tables, larger varblocks and integer chroma-from-luma are NOT covered")
+           "transcodes only: harness/src/synth.rs writes 4:4:4 three-component JPEGs with an independent encoder "
+           "that follows the IJG library's entropy coder -- baseline (four scan layouts, extra zero runs) and "
+           "progressive (spectral selection, successive approximation, seeded scan scripts, end-of-band runs "
+           "incl. runs over 32767 blocks and runs ended early by the correction-bit buffer or by choice), restart "
+           "intervals, Annex K or seeded Huffman tables in one or several DHT segments, recorded padding bits, "
+           "JFIF / Exif / comment segments -- and carries the same coefficients in a VarDCT frame of DCT8 blocks "
+           "with a jbrd box; chroma subsampling, grey JPEGs, 16-bit quantisation tables, extra zero runs in "
+           "refinement scans, ICC APP2 segments, larger varblocks and integer chroma-from-luma with non-trivial "
+           "factors are NOT covered")
 M64 = (1 << 64) - 1
 CORPUS = os.path.join(VERIF, "corpus", "c17")
 
@@ -698,15 +702,41 @@ def e2e_campaign(ctx, n):
         meta = rng.choice(["-", "-", "e", "E", "x", "c", "ec", "ex", "Ex", "ecx"])
         feed = rng.choice(["w", "w", "1", "7", "64", "333", "4096"]) if bw * bh <= 25 else rng.choice(["w", "64", "4096"])
         lines.append(f"jpeg {rng.randrange(1, 10 ** 6)} {bw} {bh} {scans} {pad} {ezr} {meta} {feed}")
+    # progressive scans (spectral selection, successive approximation, seeded scripts), restart
+    # intervals, seeded Huffman tables in one or several DHT segments, end-of-band runs ended early
+    # (correction-bit buffer, an encoder's own choice) and runs beyond 32767 blocks
+    for i in range(n):
+        big = i % 25 == 24
+        bw, bh = (rng.randrange(150, 200), rng.randrange(185, 200)) if big else \
+            (rng.choice([1, 2, 3, 5, 8, 17, 33, 40]), rng.choice([1, 2, 3, 4, 9, 31, 35]))
+        script = rng.choice(["b", "bs", "A", "B", "B", "R", "R", "R"])
+        ri = rng.choice([0, 0, 1, 2, 3, 7, bw, bw * 2 + 1, 1000])
+        tables = rng.choice(["c", "cs"]) if script in "ABR" else rng.choice(["k", "c", "cs"])
+        style = "e" if big else rng.choice("nnqz")
+        resets = rng.choice([0, 0, 1, 3, 8])
+        pad = rng.choice("dznr")
+        feed = "w" if big else rng.choice(["w", "w", str(rng.choice([1, 7, 64, 1000]))])
+        if feed == "1" and bw * bh > 64:
+            feed = "64"
+        lines.append(f"pjpeg {rng.randrange(1, 10 ** 6)} {bw} {bh} {script} {ri} {tables} {style} {resets} {pad} {feed}")
     outs = run_lines_robust([ctx.harness_bin("c17e")], lines, per_line_timeout=120)
     for l, o in zip(lines, outs):
         w = l.split()
         o = o or "crash"
         ctx.case(("e2e", l), nontrivial=True)
-        ctx.count("e2e:scans-" + w[4]); ctx.count("e2e:padding-" + w[5]); ctx.count("e2e:meta-" + w[7])
-        ctx.count("e2e:feed-" + ("whole" if w[8] == "w" else "chunked"))
-        if int(w[6]):
-            ctx.count("e2e:with-extra-zero-runs")
+        if w[0] == "pjpeg":
+            ctx.count("e2e:script-" + w[4]); ctx.count("e2e:restart-" + ("none" if w[5] == "0" else "some"))
+            ctx.count("e2e:tables-" + w[6]); ctx.count("e2e:blocks-" + w[7]); ctx.count("e2e:padding-" + w[9])
+            ctx.count("e2e:feed-" + ("whole" if w[10] == "w" else "chunked"))
+            if "early-run-ends=" in o and not o.endswith("early-run-ends=0"):
+                ctx.count("e2e:with-early-run-ends")
+            if int(w[2]) * int(w[3]) > 32767:
+                ctx.count("e2e:more-than-32767-blocks")
+        else:
+            ctx.count("e2e:scans-" + w[4]); ctx.count("e2e:padding-" + w[5]); ctx.count("e2e:meta-" + w[7])
+            ctx.count("e2e:feed-" + ("whole" if w[8] == "w" else "chunked"))
+            if int(w[6]):
+                ctx.count("e2e:with-extra-zero-runs")
         rep = {"lines": [l], "impl": [o], "how": "echo '<line>' | harness/target/debug/c17e (spec in harness/src/bin/c17e.rs)"}
         if o.startswith("ok"):
             continue
